@@ -8,8 +8,8 @@ REGRESSION = ['co_extend_then_write', 'co_iadd_then_write', 'co_slice_assign_the
               'co_heappop_write', 'co_sum_start', 'co_update_pairs_then_write', 'co_copy_copy_graph']
 
 
-def co_extend_then_write(p):
-    o = list(p)
+def co_extend_then_write(xs):
+    o = list(xs)
     d = []
     d.extend(o)
     d[0].append(1)
@@ -23,54 +23,54 @@ def co_update_then_write(dl):
 CASES['co_update_then_write'] = [('DL',)]
 
 
-def co_update_pairs_then_write(p):
+def co_update_pairs_then_write(xs):
     d = {}
-    d.update([(1, p)])
+    d.update([(1, xs)])
     d[1].append(1)
 CASES['co_update_pairs_then_write'] = [('L',)]
 
 
-def co_iadd_then_write(p):
-    o = list(p)
+def co_iadd_then_write(xs):
+    o = list(xs)
     d = []
     d += o
     d[0].append(1)
 CASES['co_iadd_then_write'] = [('LL',)]
 
 
-def co_slice_assign_then_write(p):
-    o = list(p)
+def co_slice_assign_then_write(xs):
+    o = list(xs)
     d = [0]
     d[0:1] = o
     d[0].append(1)
 CASES['co_slice_assign_then_write'] = [('LL',)]
 
 
-def co_dict_pairs(p):
-    d = dict([(1, p)])
+def co_dict_pairs(xs):
+    d = dict([(1, xs)])
     d[1].append(5)
 CASES['co_dict_pairs'] = [('L',)]
 
 
-def co_dict_kw(p):
-    d = dict(a=p)
+def co_dict_kw(xs):
+    d = dict(a=xs)
     d['a'].append(1)
 CASES['co_dict_kw'] = [('L',)]
 
 
-def co_set_update(s, p):
-    s.update(p)
+def co_set_update(s, xs):
+    s.update(xs)
 CASES['co_set_update'] = [('S', 'L7')]
 
 
-def co_set_ior(s, p):
-    s |= set(p)
+def co_set_ior(s, xs):
+    s |= set(xs)
 CASES['co_set_ior'] = [('S', 'L7')]
 
 
-def co_set_ior_fresh(s, p):
+def co_set_ior_fresh(s, xs):
     t = set(s)
-    t |= set(p)
+    t |= set(xs)
     return t
 CASES['co_set_ior_fresh'] = [('S', 'L7')]
 
@@ -133,8 +133,8 @@ def co_dict_copy_setitem(dl):
 CASES['co_dict_copy_setitem'] = [('DL',)]
 
 
-def co_sorted_safe(p):
-    s = sorted(p)
+def co_sorted_safe(xs):
+    s = sorted(xs)
     s.append(1)
     return s
 CASES['co_sorted_safe'] = [('L',)]
@@ -145,15 +145,15 @@ def co_setdefault(dl):
 CASES['co_setdefault'] = [('DL',)]
 
 
-def co_defaultdict_store(p):
+def co_defaultdict_store(xs):
     x = defaultdict(list)
-    x[1].append(p)
+    x[1].append(xs)
     x[1][0].append(3)
 CASES['co_defaultdict_store'] = [('L',)]
 
 
-def co_counter(p):
-    c = Counter(p)
+def co_counter(xs):
+    c = Counter(xs)
     c[1] += 1
     return c
 CASES['co_counter'] = [('L',)]
@@ -177,14 +177,14 @@ def co_sum_start(pl, q):
 CASES['co_sum_start'] = [('L0', 'L')]
 
 
-def co_comprehension_alias(p):
-    x = [y for y in p]
+def co_comprehension_alias(xs):
+    x = [y for y in xs]
     x[0].append(1)
 CASES['co_comprehension_alias'] = [('LL',)]
 
 
-def co_comprehension_copy(p):
-    x = [list(y) for y in p]
+def co_comprehension_copy(xs):
+    x = [list(y) for y in xs]
     x[0].append(1)
     return x
 CASES['co_comprehension_copy'] = [('LL',)]
@@ -196,44 +196,44 @@ def co_dictcomp_alias(dl):
 CASES['co_dictcomp_alias'] = [('DL',)]
 
 
-def co_list_insert(p):
-    p.insert(0, 1)
+def co_list_insert(xs):
+    xs.insert(0, 1)
 CASES['co_list_insert'] = [('L',)]
 
 
-def co_del_slice(p):
-    del p[0:1]
+def co_del_slice(xs):
+    del xs[0:1]
 CASES['co_del_slice'] = [('L',)]
 
 
-def co_list_concat_fresh(p, q):
-    r = p + q
+def co_list_concat_fresh(xs, q):
+    r = xs + q
     r.append(1)
     return r
 CASES['co_list_concat_fresh'] = [('L', 'L')]
 
 
-def co_list_concat_elem(p, q):
-    r = p + q
+def co_list_concat_elem(xs, q):
+    r = xs + q
     r[0].append(1)
 CASES['co_list_concat_elem'] = [('LL', 'LL')]
 
 
-def co_list_mul(p):
-    r = p * 2
+def co_list_mul(xs):
+    r = xs * 2
     r[0].append(1)
 CASES['co_list_mul'] = [('LL',)]
 
 
-def co_slice_copy(p):
-    r = p[:]
+def co_slice_copy(xs):
+    r = xs[:]
     r.append(1)
     return r
 CASES['co_slice_copy'] = [('L',)]
 
 
-def co_slice_copy_elem(p):
-    r = p[:]
+def co_slice_copy_elem(xs):
+    r = xs[:]
     r[0].append(1)
 CASES['co_slice_copy_elem'] = [('LL',)]
 
@@ -251,8 +251,8 @@ def co_deepcopy_graph(G):
 CASES['co_deepcopy_graph'] = [('G',)]
 
 
-def co_max_elem(p):
-    m = max(p, key=len)
+def co_max_elem(xs):
+    m = max(xs, key=len)
     m.append(0)
 CASES['co_max_elem'] = [('LL',)]
 
